@@ -19,7 +19,7 @@ CLONE = 'impl<T: Clone, N: ArrayLength> Clone for GenericArrayIter<T, N>'
 INH = 'impl<T, N: ArrayLength> GenericArrayIter<T, N>'
 INTO = 'impl<T, N: ArrayLength> IntoIterator for GenericArray<T, N>'
 
-UNWIND_DIP = ' proof { assert(%s.wf()) /*OB:%s.unwind@drop_in_place:C05*/; }'
+UNWIND_DIP = ' proof { assert(%s.wf()) /*OB:%s.unwind@drop_in_place:C05,C06*/; }'
 
 
 def rules(selfname, fname):
